@@ -15,7 +15,8 @@ BIT_LEMMAS = ["lemmas:word_bits_len", "lemmas:wire_chars_len", "lemmas:max_is_en
 DECODERS_PROVED = DECODERS + ["fcp.serde:_Buffer.push_bytes", "fcp.serde:decode"]
 RT_LEMMAS = ["lemmas:mod_step", "lemmas:mod_range", "lemmas:val_of_word_bits", "lemmas:chars_split", "lemmas:elems_split",
              "lemmas:fields_split", "lemmas:rt_str", "lemmas:rt_elems", "lemmas:rt_struct", "lemmas:seq_assoc", "lemmas:wire_dyn_shape",
-             "lemmas:rt_dyn_count", "lemmas:rt_dyn", "lemmas:rt"]
+             "lemmas:rt_dyn_count", "lemmas:rt_dyn", "lemmas:rt", "lemmas:unpack_len", "lemmas:unpack_allbits", "lemmas:unpack_byte",
+             "lemmas:unpack_facts", "lemmas:unpack_rep", "lemmas:rep_bytes_ok", "lemmas:bit_eq", "lemmas:rep_unpack"]
 REFLECTION = ["fcp.specs.type:NumericType.reflection", "fcp.specs.type:StringType.reflection", "fcp.specs.type:EnumType.reflection",
               "fcp.specs.type:StructType.reflection", "fcp.specs.type:ArrayType.reflection", "fcp.specs.type:DynamicArrayType.reflection",
               "fcp.specs.type:OptionalType.reflection", "fcp.specs.metadata:MetaData.reflection",
@@ -206,8 +207,7 @@ PLANS = {
         "targets": BUFFER + LOOKUPS + ENCODERS + BIT_LEMMAS + DECODERS_PROVED + RT_LEMMAS + ["theorems:C01_roundtrip"],
         "native": "codec",
         "trusted": CODEC_TRUSTED + [
-            "assumed lemma rep_unpack: the 8*len bits of the canonical packing of s are s followed by zero padding (uniqueness of binary "
-            "expansion); assumed lemma unpack_rep: a byte string is the canonical packing of its own bits",
+            "the byte-packing lemmas (unpack_rep, rep_unpack: existence and uniqueness of binary expansion) are proved, not assumed",
             "termination of the structural induction in the RT lemmas and of the codec's recursion over types (struct references point to "
             "earlier declarations: C08)",
             "known finding KF-F1: the contract of _decode_builtin_signed is violated exactly at the signed minimum; the theorem is relative to it",
